@@ -81,9 +81,21 @@ func c16Regex(c *Case) {
 		return
 	}
 	if g.Chance(0.03) {
-		bad := g.Pick("[a", "(", "a{2", "*a", "a**", "(?P<n", "\\", "[z-a]", "a{3,1}")
+		bad := g.Pick("[a", "(", "a{2", "*a", "a**", "(?P<n", "\\", "[z-a]", "a{3,1}", "a)", "x(?", "[[:nope:]]", "\\p{Nope}", "(?z)")
 		bl, _ := quoteLit(bad)
-		for _, src := range []string{xref.Render(xref.Call{Name: "matches", Args: []xref.Expr{sl, bl}})} {
+		bs := xref.Render(bl)
+		ss := xref.Render(sl)
+		// the constant pattern in every spelling that is still a constant: parenthesised, double-quoted, with white
+		// space around it, inside a predicate; as the pattern of matches() and of replace()
+		forms := []string{
+			"matches(" + ss + ", " + bs + ")", "matches(" + ss + ", (" + bs + "))", "matches(" + ss + ",((( " + bs + " ))))", "matches(" + ss + " ,\n" + bs + " )",
+			"//*[matches(., " + bs + ")]", "not(matches(" + ss + ", (" + bs + ")))", "matches(" + ss + ", " + bs + ") or true()", "string(matches(a, " + bs + "))",
+			"replace(" + ss + ", " + bs + ", 'x')", "replace(" + ss + ", (" + bs + "), 'x')", "//*[replace(., " + bs + ", '') = '']", "concat('a', replace(" + ss + ", ((" + bs + ")), '$1'))",
+		}
+		if !strings.Contains(bad, "\"") && !strings.Contains(bad, "'") {
+			forms = append(forms, "matches("+ss+", \""+bad+"\")", "replace("+ss+", \""+bad+"\", \"\")")
+		}
+		for _, src := range forms {
 			if _, cerr := regexp.Compile(bad); cerr == nil {
 				continue
 			}
